@@ -80,4 +80,14 @@ CLAIMED['C03'] = {
     'technique': 'contract-based deductive verification (structural induction on validate_ast via symbolic execution + z3; calls/assigns/dispatch clauses by a syntactic checker) + bounded escape-corpus oracle under sys.addaudithook',
 }
 
+CLAIMED['C05'] = {
+    'category': 'proof',
+    'text': 'Loop invariant transactions == Map(T, Filter(WF, rows[0..k))) proved on the real parse_generic_csv for three FormatSpec shapes with symbolic '
+            'column positions, date format, sign flags and separators (WF and T written from the statement), with a call-site clause for normalize_merchant; '
+            'parse_amount structure and finiteness proved against the float() contract. Text->number, strptime and the csv reader are uninterpreted here and '
+            'covered by the labelled bounded oracle (exhaustive amount grammar, real files).',
+    'level_note': _BASE_NOTE + ' datetime.strptime, float(), re.sub, str.strip/replace/split are uninterpreted; _iter_rows_with_delimiter (generator over a file handle) is bounded-only.',
+    'technique': 'contract-based deductive verification (row-loop invariant over ghost Map/Filter, z3/cvc5) + bounded oracle (exhaustive amount grammar, CSV files)',
+}
+
 NOT_APPLICABLE = {}
